@@ -9,7 +9,7 @@ python3 - <<'PY'
 import json,subprocess,os,re,glob
 res={}
 from concurrent.futures import ThreadPoolExecutor
-dirs=sorted(glob.glob('/verif/seeded/C*-[0-9]'))
+dirs=sorted((d for d in glob.glob('/verif/seeded/C*-[0-9]*') if os.path.isdir(d)), key=lambda d:(d.rsplit('-',1)[0], int(d.rsplit('-',1)[1])))
 def run(d):
     return subprocess.run(['/verif/bin/crsverif','-property','ALL','-repo','/repo','-verif','/verif','-no-evidence','-patch',d+'/patch.diff'],capture_output=True,text=True).stdout
 with ThreadPoolExecutor(6) as ex:
